@@ -28,6 +28,7 @@ def record(sessions, repo, budget=10.0, nproc=16):
     Adds 'events' (and 'status') to each by running the real code."""
     jobs = [{"kind": "solver", "descs": s["descs"], "script": s["script"],
              "numtypes": bool(s.get("numtypes")), "debuglog": bool(s.get("debuglog")),
+             "rmulpow": int(s.get("rmulpow", 0)),
              "budget": s.get("budget", budget)} for s in sessions]
     results = pool.run_jobs(jobs, repo, budget=budget, nproc=nproc)
     for s, (events, status) in zip(sessions, results):
